@@ -1,5 +1,6 @@
 """Per-property plans (DESIGN.md section 4)."""
 import os
+import time
 
 from . import common, gen, observe
 from collections import Counter
@@ -536,8 +537,20 @@ def dressed_events(run, r, cases, every, tag, post=None):
     and the same oracle predicates are evaluated on the document of the dressed text (event fields orows / dec)"""
     picked = [c for i, c in enumerate(cases) if i % every == 0 and c[0].strip()]
     dd = [dress(r, t) for (t, _, _) in picked]
-    obs = observe.observe([{"input": d[0]} for d in dd], tag=tag)
-    for (t, fields, info), (dt, kind), o in zip(picked, dd, obs):
+    # ... and, for a third of them, at another scale (documents are recorded in lattice units whatever the scale, and C11
+    # says the scale changes nothing else); every fifth keeps its text and changes the scale only
+    reqs = []
+    for j, (dt, kind) in enumerate(dd):
+        if j % 5 == 4:
+            dd[j] = (picked[j][0], "eol")
+            dt = picked[j][0]
+        if j % 3 != 0:
+            reqs.append({"input": dt, "entry": "settings", "settings": {"scale": r.choice(SCALES)}})
+        else:
+            reqs.append({"input": dt})
+    obs = observe.observe(reqs, tag=tag)
+    for (t, fields, info), (dt, kind), o, rq in zip(picked, dd, obs, reqs):
+        info = dict(info, entry=rq.get("entry", "to_svg"), settings=rq.get("settings"))
         ev = dict(fields)
         ev.update({"rows": o["rows"], "orows": gen.rows_of(t), "dec": kind, "doc": o["doc"]})
         if post:
@@ -825,6 +838,12 @@ def c09(tier):
             corpus.append("|--\n" + "|\n" * (L - 1) + g)
             corpus.append("-" * L + g + "-" * L + "\n" + " " * L + "|")
             corpus.append(" " * L + "/\n" + "\n".join(" " * (L - 1 - i) + "/" for i in range(L - 1)) + ("\n" if L > 1 else "") + g)
+    # ... and full crosses: two free runs crossing in such a glyph, arms of 1..7 cells on all four sides, in both alphabets
+    for g in "┼╪╫╬+X#":
+        for arm in (1, 2, 3, 7):
+            for (hc, vc) in (("─", "│"), ("-", "|")):
+                rows_ = [" " * arm + vc for _ in range(arm)] + [hc * arm + g + hc * arm] + [" " * arm + vc for _ in range(arm)]
+                corpus.append("\n".join(rows_))
     # large structured inputs: many groups open between two pieces of one run
     big = []
     for i in range(12 if tier == "quick" else 200):
@@ -1272,6 +1291,71 @@ def gen_box(r, w, h, k, n, kind):
     return text, {"k": k, "n": n, "w": w, "h": h}
 
 
+def multi_boxes(r):
+    """two or three boxes of the family close enough to share a span: a caption squeezed between two stacked ones, corner to
+    corner on a diagonal, a column of letters between two side by side.  returns (text, [box records])"""
+    kinds = ["sharp", "round", "round2", "uni", "uniround"]
+    page = {}
+    recs = []
+
+    def put(rows, k, n):
+        for y, row in enumerate(rows):
+            x = 0
+            for ch in row:
+                if ch != " ":
+                    page[(k + x, n + y)] = ch
+                x += 2 if common_wide(ch) else 1
+
+    def one(wmin=1):
+        w, h = r.randint(wmin, 7), r.randint(0, 3)
+        t, b = gen_box(r, w, h, 0, 0, r.choice(kinds))
+        return t.split("\n"), b
+    arrangement = r.choice(["caption", "diag", "letters", "caption3"])
+    rowsA, bA = one(2)
+    k0, n0 = r.randint(0, 4), r.randint(0, 2)
+    put(rowsA, k0, n0)
+    recs.append({"k": k0, "n": n0, "w": bA["w"], "h": bA["h"]})
+    if arrangement in ("caption", "caption3"):
+        y = n0 + bA["h"] + 2
+        for rep_ in range(2 if arrangement == "caption3" else 1):
+            word = "".join(r.choice(gen.LABELS) for _ in range(r.randint(1, 5)))
+            cx = k0 + r.randint(0, 2)
+            put([word], cx, y)
+            rowsB, bB = one(2)
+            kB = max(0, cx + r.randint(-1, 1))
+            put(rowsB, kB, y + 1)
+            recs.append({"k": kB, "n": y + 1, "w": bB["w"], "h": bB["h"]})
+            y = y + 1 + bB["h"] + 2
+            k0 = kB
+    elif arrangement == "diag":
+        rowsB, bB = one()
+        kB, nB = k0 + bA["w"] + 2, n0 + bA["h"] + 2
+        put(rowsB, kB, nB)
+        recs.append({"k": kB, "n": nB, "w": bB["w"], "h": bB["h"]})
+    else:
+        kL = k0 + bA["w"] + 2
+        rowsB, bB = one()
+        hh = max(bA["h"], bB["h"]) + 2
+        put(["".join(r.choice(gen.LABELS))] * 1, kL, n0)
+        for yy in range(hh):
+            if r.random() < 0.8:
+                page[(kL, n0 + yy)] = r.choice(gen.LABELS)
+        put(rowsB, kL + 1, n0)
+        recs.append({"k": kL + 1, "n": n0, "w": bB["w"], "h": bB["h"]})
+    H = max(y for (_, y) in page) + 1
+    out = []
+    for y in range(H):
+        xs = sorted(x for (x, yy) in page if yy == y)
+        row, x = "", 0
+        for cx in xs:
+            if cx < x:
+                return None, None          # overlap of a wide label with something: skip this draw
+            row += " " * (cx - x) + page[(cx, y)]
+            x = cx + (2 if common_wide(page[(cx, y)]) else 1)
+        out.append(row)
+    return "\n".join(out), recs
+
+
 def mutate(r, text, alphabet):
     rows = [list(x) for x in text.split("\n")]
     cand = [(i, j) for i, row in enumerate(rows) for j in range(len(row))]
@@ -1326,6 +1410,15 @@ def c05(tier):
     for (t, b), o in zip(boxes, obs):
         run.add_event({"props": ["C05box", "C05s"], "rows": o["rows"], "doc": o["doc"], "box": b}, {"input": t, "box": b})
     dressed_events(run, r, [(t, {"props": ["C05box", "C05s"], "box": b}, {"box": b}) for (t, b) in boxes], 4, "C05D")
+    # several boxes in one span: each keeps its own position, size, radius and class
+    multi = []
+    for _ in range(300 if tier == "quick" else 20000):
+        t, recs = multi_boxes(r)
+        if t:
+            multi.append((t, recs))
+    mobs = observe.observe([{"input": t} for t, _ in multi], tag="C05M")
+    for (t, recs), o in zip(multi, mobs):
+        run.add_event({"props": ["C05multi", "C05s"], "rows": o["rows"], "doc": o["doc"], "boxes": recs}, {"input": t, "boxes": recs})
     run.samples.append({"input": boxes[len(boxes) // 2][0], "box": boxes[len(boxes) // 2][1]})
     run.validate(shard=1200)
     # soundness families
@@ -2329,6 +2422,15 @@ def c19(tier):
     texts += ["a\\tb", "\\to\n \\", "x\\ty \\r \\0", "\\ \\t\n \\"] * 3
     # a leading byte order mark (or any other invisible character) is part of the text in every mode
     texts += ["\ufeff+--+\n|  |\n+--+", "\ufeffab -->", "\u200b| x", " \n\n+-+"] * 3
+    # large inputs (beyond any fixed-size read buffer: 8 KiB, 16 KiB, 64 KiB) with multi-byte characters at every
+    # alignment: a run of 2-, 3- and 4-byte characters shifted by 0..3 ASCII bytes in front of it, repeated in every line
+    # (the bulk sits in the legend, which costs bytes but no cells; a few rows of it in the drawing too)
+    for j in range(8):
+        line = "x" * (j % 4) + ("é→😀ж一" * 12)[:40 + j]
+        decl = ("é→😀ж一" * 30)[:100 + j]
+        nent = [25, 50, 100, 210][j % 4]
+        texts.append("+--+\n|ab|\n+--+\n" + "\n".join(line for _ in range(8)) + "\n# Legend:\n"
+                     + "".join("k%d = {content: '%s%s'}\n" % (i_, "y" * ((i_ + j) % 4), decl) for i_ in range(nent)))
     convert, convert_many = lib_converter()
     work = os.path.join(common.rundir(), "cli")
     os.makedirs(work, exist_ok=True)
@@ -2505,6 +2607,61 @@ def c20(tier):
         with ThreadPoolExecutor(max_workers=nclients) as ex:
             for evs in ex.map(contender, range(1, nclients + 1)):
                 events += evs
+        # look-alike bodies one right after the other, sequentially and from four clients at once: drawings of the same size
+        # with the same first and last cells (a catalogue circle and the rounded box of its size, a drawing and the same with
+        # one row moved): what the server kept from one request must not answer the next
+        cat20 = _json.load(open(os.path.join(common.ROOT, "verifpy", "catalogue.json"), encoding="utf-8"))
+        look = []
+        for idx in (2, 3, 5, 8):
+            D = list(cat20[idx])
+            wd = max(len(x) for x in D)
+            box_ = [D[0]] + ["|" + " " * (wd - 2) + "|" for _ in D[1:-1]] + [D[-1]]
+            look += ["\n".join(D), "\n".join(box_), "\n".join(D), "\n".join((" " + x if i_ == 1 else x) for i_, x in enumerate(D))]
+        convert_many([(t, {}) for t in look])
+        lpool = [(t, shells.sha(convert(t, {}).encode("utf-8"))) for t in look]
+
+        def lookalikes(cid):
+            out = []
+            for rep_ in range(2):
+                for k, (t, want) in enumerate(lpool):
+                    st, body = shells.http_request(srv.port, "POST", "/", t.encode("utf-8"), timeout=60)
+                    out.append({"client": cid, "seq": 2000 + rep_ * 100 + k, "class": "post_ok", "status": st, "body_sha": shells.sha(body), "want_sha": want})
+            return out
+        events += lookalikes(0)
+        with ThreadPoolExecutor(max_workers=4) as ex:
+            for evs in ex.map(lookalikes, range(1, 5)):
+                events += evs
+        # uploads that stall: many connections send the head of a POST and a few bytes of the body and then nothing; while
+        # they are held open, other clients' requests must be answered as always
+        import socket as _socket
+        stalled = []
+        for k in range(40):
+            try:
+                s_ = _socket.create_connection(("127.0.0.1", srv.port), timeout=10)
+                s_.sendall(b"POST / HTTP/1.1\r\nHost: 127.0.0.1\r\nContent-Type: text/plain\r\nContent-Length: 5000\r\n\r\n+--+\n|ab|")
+                stalled.append(s_)
+            except OSError:
+                pass
+        time.sleep(0.5)
+
+        def during(cid):
+            out = []
+            for k in range(3):
+                st, body = shells.http_request(srv.port, "GET", "/", timeout=20)
+                out.append({"client": cid, "seq": 3000 + 2 * k, "class": "get", "status": st, "body_sha": shells.sha(body), "want_sha": hello_sha})
+                t, want = pool[3 + k % 3]
+                st, body = shells.http_request(srv.port, "POST", "/", t.encode("utf-8"), timeout=20)
+                out.append({"client": cid, "seq": 3001 + 2 * k, "class": "post_ok", "status": st, "body_sha": shells.sha(body), "want_sha": want})
+            return out
+        with ThreadPoolExecutor(max_workers=4) as ex:
+            for evs in ex.map(during, range(1, 5)):
+                events += evs
+        for s_ in stalled:
+            try:
+                s_.close()
+            except OSError:
+                pass
+        run.notes["stalled_uploads_held"] = len(stalled)
         alive = srv.alive()
     finally:
         srv.stop()
